@@ -315,16 +315,19 @@ SM0 = frozenset([("r", 7), ("r", 18), ("s", 3)])
 SM1 = frozenset([("r", 17), ("r", 19), ("s", 10)])
 
 
-def sha256(prog, rep):
-    u = prog.unit("alg/sha256.c")
+def sha256(prog, rep, unit="alg/sha256.c", fname="SHA256_Transform", full=True):
+    """full=False: only the round constants and the sixty-four rounds of `fname` in `unit` (a sibling implementation that computes
+    its schedule differently, e.g. alg/sha256_sse2.c)."""
+    u = prog.unit(unit)
     k = u.global_ints("Krnd")
-    h = u.global_ints("initial_state")
-    rep.check(k == SHA256_K, "K1-const", "SHA-256 Krnd[64] = frac(cbrt(prime_i)) * 2^32", (u.global_("Krnd") or {}).get("loc", ""),
+    rep.check(k == SHA256_K, "K1-const", "SHA-256 Krnd[64] = frac(cbrt(prime_i)) * 2^32 (%s)" % unit, (u.global_("Krnd") or {}).get("loc", ""),
               "first difference at %s" % next((i for i in range(64) if not k or i >= len(k) or k[i] != SHA256_K[i]), None), function="Krnd", construct="table")
-    rep.check(h == SHA256_H, "K1-const", "SHA-256 initial_state[8] = frac(sqrt(prime_i)) * 2^32", (u.global_("initial_state") or {}).get("loc", ""), "", function="initial_state", construct="table")
-    f = u.func("SHA256_Transform")
+    if full:
+        h = u.global_ints("initial_state")
+        rep.check(h == SHA256_H, "K1-const", "SHA-256 initial_state[8] = frac(sqrt(prime_i)) * 2^32", (u.global_("initial_state") or {}).get("loc", ""), "", function="initial_state", construct="table")
+    f = u.func(fname)
     if f is None:
-        raise cdb.AnalysisBroken("anchor missing: SHA256_Transform")
+        raise cdb.AnalysisBroken("anchor missing: %s" % fname)
     if not rep.names(f, "S", "W", "state", "block", "i"):
         return
     sa = [e for e in f.all_elems() if e.is_assign and e.op == "+=" and elem_index(norm(e.kid(0)), "S") is not None]
@@ -375,6 +378,20 @@ def sha256(prog, rep):
             bad.append(kk)
     rep.check(not bad, "R-sha256", "SHA-256: each round h += S1(e)+Ch(e,f,g)+W[t]+K[t]; d += h; h += S0(a)+Maj(a,b,c), registers rotating", f.loc,
               "round instances deviating from FIPS 180-4: %s" % bad, function=f.name, construct="round")
+    if not full:
+        if loopvar is not None:
+            ini = [e for e in f.all_elems() if e.is_assign and e.op == "=" and norm(e.kid(0)) == loopvar and norm(e.kid(1)) == ("c", 0)]
+            stp = [e for e in f.all_elems() if e.is_assign and e.op == "+=" and norm(e.kid(0)) == loopvar and norm(e.kid(1)) == ("c", 16)]
+            lim = any(op == "<" and L == loopvar and R == ("c", 64) for cond, truth in f.edge_conds(rounds[0][1][0]) for op, L, R, _, _ in cond_atoms(cond, truth))
+            rep.check(bool(ini) and bool(stp) and lim, "R-sha256", "SHA-256 (%s): four groups of 16 rounds (t = 0..63)" % fname, f.loc, "", function=f.name, construct="loop")
+        # working variables start as the state and are added back into it
+        cp = [c for c in f.calls("memcpy") if norm(c.arg(2)) == ("c", 32) and norm(c.arg(0))[0] == "v" and norm(c.arg(0))[1] == "S" and norm(c.arg(1))[0] == "v" and norm(c.arg(1))[1] == "state"]
+        back = [e for e in f.all_elems() if e.is_assign and e.op == "+=" and norm(e.kid(0))[0] == "[]" and norm(e.kid(1))[0] == "[]" and norm(e.kid(0))[1][0] == "v" and
+                norm(e.kid(0))[1][1] == "state" and norm(e.kid(1))[1][0] == "v" and norm(e.kid(1))[1][1] == "S" and norm(e.kid(0))[2] == norm(e.kid(1))[2]]
+        bounds = [(op, R) for b in back for cond, truth in f.edge_conds(b) for op, L, R, _, _ in cond_atoms(cond, truth) if L == norm(b.kid(0))[2]]
+        rep.check(len(cp) == 1 and len(back) == 1 and ("<", ("c", 8)) in bounds, "R-sha256", "SHA-256 (%s): S = state before the rounds, state[i] += S[i] after them" % fname, f.loc,
+                  "copies of 32 bytes state -> S: %d, feed-forward additions: %d" % (len(cp), len(back)), function=f.name, construct="frame")
+        return
     # schedule
     ws = stmts_in_order(f, lambda e: e.is_assign and e.op == "=" and norm(e.kid(0))[0] == "[]" and norm(e.kid(0))[1][0] == "v" and norm(e.kid(0))[1][1] == "W")
     bad = []
